@@ -262,6 +262,49 @@ def k3_file_artefacts(actual: str, ref: str, in_tmp: bool) -> bool:
     return bool(named) and all(fs.exists(p_) for p_ in named) and apath in named
 
 
+def _one_pair(a, r, name):
+    """what the single-file comparison of this pair writes (a fresh filesystem and a fresh message object)"""
+    fs = fakefs.FakeFS({'/ref/' + name: r, '/out/' + name: a}, dirs=[TMP, '/ref', '/out'])
+    with fakefs.patched(fs, cf, bc):
+        fc = FilesComparison(verbose=False, tmp_dir=TMP)
+        code, msgs = fc.check_file('/out/' + name, '/ref/' + name, remove_lines=['!'], ignore_substrings=['#'])
+    return code, dict((w, fs.files[w]) for w in fs.written())
+
+
+def k3_multi_file(a1: str, r1: str, a2: str, r2: str) -> bool:
+    """
+    pre: len(a1) <= P['nc'] and len(r1) <= P['nc'] and len(a2) <= P['nc'] and len(r2) <= P['nc']
+    pre: _cls(a1) == P['split'][0] and _cls(r1) == P['split'][1]
+    post: __return__
+    """
+    # a list-of-files assertion: each pair's artefacts are those of that pair - exactly the files, with exactly the
+    # content, that the single-file comparison of the pair leaves (nothing carried over from an earlier pair)
+    saved_marker = FilesComparison.diff_marker
+    FilesComparison.diff_marker = lambda self, left, right: '<>'
+    try:
+        c1, w1 = _one_pair(a1, r1, 'p.txt')
+        c2, w2 = _one_pair(a2, r2, 'q.txt')
+        files = {'/ref/p.txt': r1, '/out/p.txt': a1, '/ref/q.txt': r2, '/out/q.txt': a2}
+        fs = fakefs.FakeFS(dict(files), dirs=[TMP, '/ref', '/out'])
+        with fakefs.patched(fs, cf, bc):
+            fc = FilesComparison(verbose=False, tmp_dir=TMP)
+            code, msgs = fc.check_files(['/out/p.txt', '/out/q.txt'], ['/ref/p.txt', '/ref/q.txt'],
+                                        remove_lines=['!'], ignore_substrings=['#'])
+    finally:
+        FilesComparison.diff_marker = saved_marker
+    if fs.deleted() or any(fs.files.get(k) != v for k, v in files.items()):
+        return False
+    if code != (1 if c1 else 0) + (1 if c2 else 0):
+        return False
+    want = dict(w1)
+    want.update(w2)
+    got = dict((w, fs.files[w]) for w in fs.written())
+    if got != want:
+        return False
+    named = _named_paths(msgs)
+    return all(fs.exists(p_) for p_ in named) and (code == 0 or bool(named))
+
+
 def lift_artefacts(actual, ref):
     """public API with real files"""
     import os
@@ -340,6 +383,17 @@ def _obs():
                   'them', 'actual, reference text: any strings len<=2; remove_lines=[!] ignore_substrings=[#]; actual '
                   'file inside or outside tmp_dir', param={'nc': 2}, timeout=400,
                   stubs=['fakefs', 'diff_marker -> constant']))
+    for nc, tier, to in ((1, 'quick', 300), (2, 'thorough', 3000)):
+        for ca in 'e#!x':
+            for cr in 'e#!x':
+                obs.append(Ob('K3', 'k3_multi_file', 'list-of-files assertion: the failure count is the number of failing '
+                              'pairs and the files written are, name by name and byte by byte, those the single-file '
+                              'comparison of each pair writes (no artefact of one pair is derived from another); inputs '
+                              'untouched; named files exist',
+                              'two pairs of texts, any strings len<=%d each; remove_lines=[!] ignore_substrings=[#]; case '
+                              'split: first actual of class %r, first reference of class %r (empty / holds # / holds ! / '
+                              'other)' % (nc, ca, cr), param={'nc': nc, 'split': [ca, cr]}, timeout=to, tier=tier,
+                              stubs=['fakefs', 'diff_marker -> constant']))
     return obs
 
 
